@@ -94,8 +94,10 @@ def oracle(script: dict, run: Any) -> List[Violation]:
             out.append(Violation("C10/broker-got-wrong-message", f"message {k}: broker received chain {got_chain!r}, pre_send chain is {chains[-1]!r}"))
         if failed:
             se = next(e for e in evs if e[3] == "send_err")
-            if se[5]["exc"] != "SendTaskError":
-                out.append(Violation("C10/send-error-type", f"failed send of message {k} surfaced as {se[5]['exc']}, expected SendTaskError"))
+            if not se[5].get("is_send_task_error"):
+                kf = next(e for e in evs if e[3] == "kick_fail")
+                out.append(Violation("C10/send-error-type", f"failed send of message {k} (broker.kick raised {kf[5].get('exc')}) surfaced to the caller as {se[5]['exc']}, "
+                                     f"which is not a SendTaskError"))
     # ---------------------------------------------------------------- worker side
     send_chain = chain_after(script, "pre_send", "")[-1]
     for t in h.takes():
